@@ -21,6 +21,7 @@ import (
 	"bytes"
 	"encoding/binary"
 	"fmt"
+	"github.com/cbeuw/Cloak/internal/client"
 	"net"
 	"os"
 	"sort"
@@ -422,6 +423,79 @@ func c07(c *ctx) {
 					e.conn(pk.pkt, fmt.Sprintf("clock-edge %+dns", d))
 				}
 				o.case_(fmt.Sprintf("edge/%d/%d/%d", fi, d, level), true)
+			}
+		}
+	}
+	e.cur = T
+
+	// ---- (1b) forged without the server's key: degenerate ephemeral values ----
+	// For a small-order X25519 point the shared secret does not depend on any private key (it is all-zero), so
+	// anyone can seal a payload "to" it.  golang.org/x/crypto's X25519 refuses such points; the server must never
+	// accept a packet that was not sealed to ITS key.  The payload names an authorised (bypass) UID, a served
+	// method and a timestamp inside the window.
+	{
+		e.newServer(admin, [][]byte{byp}, book)
+		p25519 := func(delta int) []byte { // little-endian p + delta, p = 2^255 - 19
+			b := make([]byte, 32)
+			for i := range b {
+				b[i] = 0xff
+			}
+			b[31] = 0x7f
+			v := 0xed + delta
+			b[0] = byte(v)
+			if v > 0xff { // carry
+				for i := 1; i < 32; i++ {
+					b[i]++
+					if b[i] != 0 {
+						break
+					}
+				}
+				b[31] &= 0xff
+			}
+			return b
+		}
+		lowOrder := [][]byte{
+			make([]byte, 32),
+			append([]byte{1}, make([]byte, 31)...),
+			unhx("e0eb7a7c3b41b8ae1656e3faf19fc46ada098deb9c32b1fd866205165f49b800"),
+			unhx("5f9c95bca3508c24b1d0b1559c83ef5b04445cc4581c8e86d8224eddd09f1157"),
+			p25519(-1), p25519(0), p25519(1),
+		}
+		zeroKey := make([]byte, 32)
+		for pi, pt := range lowOrder {
+			for hb := 0; hb < 2; hb++ { // also with the ignored top bit set
+				point := append([]byte(nil), pt...)
+				if hb == 1 {
+					point[31] |= 0x80
+				}
+				plain := make([]byte, 48)
+				copy(plain, byp)
+				copy(plain[16:28], "shadowsocks")
+				plain[28] = 1
+				binary.BigEndian.PutUint64(plain[29:37], uint64(T.Unix()))
+				binary.BigEndian.PutUint32(plain[37:41], uint32(900+pi))
+				ct := hsOracleSeal(zeroKey, point[:12], plain)
+				var vp client.VerifPayload
+				copy(vp.Rand[:], point)
+				copy(vp.Ct[:], ct)
+				for fi, f := range flavours {
+					var pkt []byte
+					if f.tr == "tls" {
+						var err error
+						pkt, err = client.VerifClientHello(f.br, vp, "www.example.com")
+						if err != nil {
+							continue
+						}
+					} else {
+						pkt = wsGET(append(append([]byte(nil), point...), ct...), r.bytes(16))
+					}
+					desc := fmt.Sprintf("forged with small-order point #%d topbit=%d (no server key needed)", pi, hb)
+					e.resetCache()
+					e.first(f.tr, pkt, desc)
+					e.resetCache()
+					e.conn(pkt, desc)
+					o.case_(fmt.Sprintf("loworder/%d/%d/%d", pi, hb, fi), true)
+				}
 			}
 		}
 	}
